@@ -80,6 +80,37 @@ def registered_spelling_pass(ctx):
                     break
 
 
+def fromname_history_pass(ctx):
+    """`Algebra.fromname(name)` after earlier `fromname(name, **options)` calls for the same name in the same process (graded=True,
+    cse=False, another signature, a wrapper): a plain `fromname(name)` is still the named algebra with default options - it
+    equals the first plain one, has the documented signature, and multiplies like it"""
+    from kingdon import Algebra
+    spec = {'2DPGA': (2, 0, 1), '3DPGA': (3, 0, 1), 'STAP': (3, 1, 1)}
+    for name, (p_, q_, r_) in spec.items():
+        first = Algebra.fromname(name)
+        ref = (first.p, first.q, first.r, [int(v) for v in first.signature], first.graded, first.cse, list(first.canon2bin), first.wrapper)
+        d = first.d
+        sig2 = [int(v) for v in first.signature]; sig2[-1] = -sig2[-1] if sig2[-1] else 1
+        for optname, kw in (('graded=True', {'graded': True}), ('cse=False', {'cse': False}), ('signature=..', {'signature': sig2}), ('wrapper=f', {'wrapper': (lambda f: f)})):
+            try:
+                Algebra.fromname(name, **kw)
+            except Exception as ex:
+                ctx.count('fromname-option-raises:' + type(ex).__name__)
+            plain = Algebra.fromname(name)
+            got = (plain.p, plain.q, plain.r, [int(v) for v in plain.signature], plain.graded, plain.cse, list(plain.canon2bin), plain.wrapper)
+            case = {'fromname': name, 'earlier_call': f'Algebra.fromname({name!r}, {optname})'}
+            ctx.case(case, tag='fromname-history')
+            if got != ref or (p_, q_, r_) != (plain.p, plain.q, plain.r) or not (plain == first):
+                ctx.violation('fromname-instance', case, str(ref[:6])[:250], str(got[:6])[:250], key='fromname:history')
+                break
+            gens = [n for n in plain.canon2bin if len(n) == 2]
+            sq = [mv_to_dict(plain.blades[g] * plain.blades[g]) for g in gens]
+            sq0 = [mv_to_dict(first.blades[g] * first.blades[g]) for g in gens]
+            if sq != sq0:
+                ctx.violation('fromname-instance', {**case, 'check': 'generator squares'}, str(sq0), str(sq), key='fromname:history:squares')
+                break
+
+
 def run(ctx):
     from kingdon import Algebra, MultiVector
     from kingdon.operator_dict import AlgebraError
@@ -245,6 +276,7 @@ def run(ctx):
             if names1 != exp_names:
                 ctx.violation('start-index-names', {'sig': sig, 'start': start}, exp_names, names1, key='start-index')
     registered_spelling_pass(ctx)
+    fromname_history_pass(ctx)
     # rejection of operands from algebras whose metric or basis differ
     pool = [('sig+-', make_algebra([1, -1])), ('sig-+', make_algebra([-1, 1])), ('sig++', make_algebra([1, 1])),
             ('pga-default', make_algebra([0, 1, 1])), ('pga-named', Algebra.fromname('2DPGA')), ('sig110', make_algebra([1, 1, 0])),
